@@ -327,7 +327,8 @@ def z_r3_writer_shape(p: Project, rep: Report):
                 rep.check("Z-R3", f"{clsname}.regex:tz-name-admits-written-names", admits, f"the zone-name group does not admit {missing_[:6]}: names the writer emits (tzname() of an unnamed fixed offset is 'UTC-05:00') cannot be read back" if not admits else "", r.where)
 
 
-def z_r4_conversion(p: Project, rep: Report):
+def z_r4_conversion(p: Project, rep: Report, utc_label=False):
+    # utc_label: also require that the value carries the UTC label (C03/C09 state it; the round-trip properties only need the instant)
     rep.rule("Z-R4", "the str reader turns the matched fields into the value: milliseconds x 1000 = microseconds, absent fields count as 0, the offset is SUBTRACTED and the result labelled UTC (both DateTime and Time), offset minutes are int(minutes or 0).  Known-good spellings hold, known-bad ones (another factor, '+', another default) are violations, anything else is left undecided.")
     from .flat import flat
     from .paths import return_paths
@@ -376,6 +377,8 @@ def z_r4_conversion(p: Project, rep: Report):
                 rep.check("Z-R4", f"{name}.normalize_to_gmt:subtracts-offset-labels-UTC", False, f"returns {rtxt[:80]}: the shifted value is not labelled UTC", tloc(p, nfn0))
             elif f"{off} //" in rtxt or "// 3600" in rtxt or ".seconds //" in rtxt:
                 rep.check("Z-R4", f"{name}.normalize_to_gmt:subtracts-offset-labels-UTC", False, f"returns {rtxt[:90]}: only the WHOLE HOURS of the offset are applied (floor division), the .MM minutes of offsets such as +5.30 are dropped", tloc(p, nfn0))
+            elif utc_label and "tzinfo=" in rtxt and "astimezone(" not in rtxt and not any(u in rtxt.replace(" ", "") for u in ("tzinfo=utils.UTC", "tzinfo=UTC", "tzinfo=datetime.timezone.utc", "tzinfo=timezone.utc")):
+                rep.check("Z-R4", f"{name}.normalize_to_gmt:subtracts-offset-labels-UTC", False, f"returns {rtxt[:90]}: the value is labelled with the document's own zone and never shifted to UTC - models hold values in whatever zone the bank wrote (hour, date and tzinfo differ from the UTC value the data type assigns)", tloc(p, nfn0))
             else:
                 rep.note(f"Z-R4 undecided: {name}.normalize_to_gmt returns {rtxt[:60]}")
     # --- the reader returns the normalised value
